@@ -203,6 +203,18 @@ CHECKS["C15"] = dict(
     technique="TLA+-enumerated strings and spellings, end-to-end observations validated by TLC",
     design="7/C15")
 
+CHECKS["C16"] = dict(
+    category="model_checking",
+    text="Glob.tla is the reference for pathname expansion (component-wise matching through Pattern.tla, hidden-file rule, directories "
+         "only before a slash, literal components by existence, escapes).  TLC enumerates 1296 trees (four names incl. a dot file and "
+         "a name with a pattern character; files, directories with plain / dot children, dangling symlinks) x 264 patterns and computes "
+         "the expected sets; the driver builds every tree in a scratch directory and runs the real pattern.Glob; GlobCheck validates "
+         "set equality, existence, no duplicates, byte order, trailing slashes, and that no match is an empty result without error.",
+    note="Trusted: Glob.tla, the scratch-directory builder of the driver, TLC.  Absolute patterns and repeated slashes are not generated; "
+         "the quick tier samples 400 of the 1296 trees (seeded).",
+    technique="TLA+ reference model; trees and patterns enumerated by TLC, file-system observations validated by TLC",
+    design="7/C16")
+
 NOT_APPLICABLE = {}
 
 ALL = ["C%02d" % i for i in range(1, 21)]
